@@ -320,7 +320,7 @@ def write_evidence(prop, tier, seed, coverage, assumptions, wall_s, nviol):
         "wall_s": round(wall_s, 3),
         "violations": int(nviol),
     }
-    d = os.path.join(VERIF, "evidence")
+    d = os.environ.get("VERIF_EVIDENCE_DIR") or os.path.join(VERIF, "evidence")
     os.makedirs(d, exist_ok=True)
     p = os.path.join(d, prop + ".json")
     tmp = p + ".tmp%d" % os.getpid()
